@@ -197,6 +197,24 @@ class World:
                                                  []).append(str(e))
         finally:
             interp.frames.pop()
+        for i_, b_ in enumerate(bases):
+            if isinstance(b_, ExtRef) and b_.name == 'typing.NamedTuple':
+                # class X(typing.NamedTuple): the annotated names are the
+                # fields, in order; class-level values are the defaults
+                names, defaults = [], []
+                for st in node.body:
+                    if isinstance(st, ast.AnnAssign) and isinstance(
+                            st.target, ast.Name):
+                        names.append(st.target.id)
+                        if st.value is not None:
+                            defaults.append(attrs.get(st.target.id))
+                        elif defaults:
+                            attrs['__unmodelled__'] = K(
+                                'NamedTuple field order')
+                for n_ in names:
+                    attrs.pop(n_, None)
+                bases[i_] = NTClass(node.name, names, defaults)
+                cls.bases = bases
         ext = [b.name for b in bases if isinstance(b, ExtRef)]
         if any(n in ('enum.Enum', 'enum.IntEnum', 'enum.Flag',
                      'enum.IntFlag', 'enum.StrEnum') for n in ext):
